@@ -214,6 +214,67 @@ void harness(void) { setup(); snoopy_datasource_datetime(buf, BUFSZ, IN.arg); TE
         if (!v_sys.strftime_zero && IN.tout[0] != '\0') V_ASSERT(same(buf, IN.tout), "C12: datetime = strftime's text");
     }
     V_WITNESS(); }
+#elif defined(DS_rpname)
+/* rpname = kernel name of the ancestor (or the process itself) whose parent is pid 1 (or 0), read from /proc/<pid>/status */
+#include "vfs.h"
+int snoopy_datasource_rpname(char * const, size_t, char const * const);
+#define RP_TEXT 24
+static char g_st[2][RP_TEXT];        /* status files of the process (pid 50) and of its parent (pid 40) */
+static int g_foreign_path;
+static void render_status(int i, const char *nm, unsigned nl, const char *ppid2)
+{
+    /* "Name:\t<name>\nPPid:\t<pp>\n" with every byte at a concrete index */
+    const char tail[10] = { '\n', 'P', 'P', 'i', 'd', ':', '\t', ppid2[0], ppid2[1], '\n' };
+    char *t = g_st[i];
+    t[0] = 'N'; t[1] = 'a'; t[2] = 'm'; t[3] = 'e'; t[4] = ':'; t[5] = '\t';
+    for (unsigned j = 0; j < 3 + 10; j++) t[6 + j] = (j < nl) ? nm[j] : ((j - nl < 10) ? tail[j - nl] : '\0');
+    t[6 + 13] = '\0';
+}
+void v_fs_lookup(const char *path, struct v_vfile *out)
+{
+    out->exists = 0;
+    if (strcmp(path, "/proc/50/status") == 0) { out->exists = 1; out->content = g_st[0]; out->len = strlen(g_st[0]); }
+    else if (strcmp(path, "/proc/40/status") == 0) { out->exists = 1; out->content = g_st[1]; out->len = strlen(g_st[1]); }
+    else g_foreign_path = 1;
+}
+void harness(void)
+{
+    setup();
+    v_sys.pid = 50;
+#ifdef RP_DIRECT
+    int direct = RP_DIRECT;                         /* partition: the process itself is / is not a child of pid 1 */
+#else
+    int direct = IN.nenv & 1;
+#endif
+#ifdef RP_NOFAULTS
+    for (int i_ = 0; i_ < V_NCH; i_++) v_ch[i_] = 0;   /* partition: every procfs call succeeds (faults: separate query with fixed names) */
+#endif
+#ifdef RP_FIXEDNAMES
+    IN.e0[0] = 'a'; IN.e0[1] = ' '; IN.e0[2] = 'b'; IN.e1[0] = 'c'; IN.e1[1] = ':'; IN.e1[2] = 'd'; IN.fl[10] = 2; IN.fl[11] = 2;
+#endif
+    for (int k = 0; k < 3; k++) { V_ASSUME(IN.e0[k] != '\n' && IN.e0[k] != '\0'); V_ASSUME(IN.e1[k] != '\n' && IN.e1[k] != '\0'); }
+#ifdef RP_NL0      /* partition: name lengths fixed per query so that every file offset is concrete */
+    unsigned nl0 = RP_NL0, nl1 = RP_NL1;
+#else
+    unsigned nl0 = 1 + (IN.fl[10] % 3), nl1 = 1 + (IN.fl[11] % 3);
+#endif
+    render_status(0, IN.e0, nl0, direct ? " 1" : "40");
+    render_status(1, IN.e1, nl1, (IN.nenv & 2) ? " 0" : " 1");
+    v_fs_reset(); v_no_short_reads = 1; g_foreign_path = 0;
+    snoopy_datasource_rpname(buf, BUFSZ, "");
+    TERMINATED();
+    V_ASSERT(v_open_streams == 0, "C03/C16: every procfs stream is closed on every path");
+    V_ASSERT(!g_foreign_path, "C12: rpname reads only the status files of the process and its ancestors");
+    const char *want = direct ? IN.e0 : IN.e1; unsigned wl = direct ? nl0 : nl1;
+    int is_want = (strnlen(buf, BUFSZ) == wl);
+    for (unsigned k = 0; k < wl && is_want; k++) if (buf[k] != want[k]) is_want = 0;
+    int expected_opens = direct ? 2 : 3;
+    if (v_fopen_ok == expected_opens && v_fopen_calls == expected_opens)
+        V_ASSERT(is_want, "C12: rpname = name of the ancestor whose parent is pid 1 (or 0), exactly as the kernel reports it");
+    else
+        V_ASSERT(is_want || same(buf, "(unknown)"), "C03: unreadable process tree => (unknown)");
+    V_WITNESS();
+}
 #elif defined(DS_timestamp)
 void harness(void) { setup(); snoopy_datasource_timestamp(buf, BUFSZ, ""); TERMINATED();
     if (!v_sys.gtod_fails) V_ASSERT(is_dec(buf, (unsigned long)IN.now, 0), "C12: timestamp = seconds of the current time"); V_WITNESS(); }
